@@ -35,6 +35,7 @@ ASSUMPTIONS = ["redis-py pipeline(transaction=True) buffers commands and sends t
 
 
 def run(ctx: Ctx) -> None:
+    inmem_storage(ctx)
     inmem_transfer_atomic(ctx)
     inmem_consume_rules(ctx, rule_a="R-C01-ATOMIC")
     inmem_source(ctx)
@@ -76,3 +77,41 @@ def redis_orphan(ctx: Ctx, rule="R-C01-TRANSFER") -> None:
         ok = ok and len(ex) == 1
     ctx.check(ok, rule, f, "redis orphan-data branch: -held +dead of the same name in one transaction", "zrem(processing, name); lpush(dead, name); execute",
               "redis __get_message_details: a name without data is not moved from processing to dead in one transaction", instance="redis orphan branch")
+
+
+def inmem_storage(ctx: Ctx, rule="R-C01-TRANSFER") -> None:
+    """The places themselves: per-queue, created once, never silently replaced."""
+    dq = ctx.prog.cls("repid.connections.in_memory.utils.DummyQueue")
+    for name in ("simple", "delayed", "dead", "processing"):
+        v = dq.attrs.get(name)
+        ok = isinstance(v, ast.Call) and dotted(v.func) == "field" and C.kw(v, "default_factory") is not None and C.kw(v, "default") is None
+        ctx.check(ok, rule, dq.qualname, f"DummyQueue.{name} has its own container per queue", "field(default_factory=...)",
+                  f"DummyQueue.{name} is declared as {unparse(v) if v is not None else 'missing'}: without a default_factory every queue shares one container, so messages of different queues mix",
+                  instance=f"DummyQueue.{name} per instance")
+    f = ctx.func(f"{C.INMEM_BROKER}.queue_declare")
+    g = ctx.cfg(f)
+    creates = [n for n in g.nodes if n.kind == "store" and isinstance(n.ast, ast.Subscript) and dotted(n.ast.value) == "self.queues"]
+    ctx.require(bool(creates), f"{f.qualname}: queue creation not found")
+
+    def env(exists):
+        def fn(text, node):
+            if isinstance(node, ast.Compare) and isinstance(node.ops[0], ast.In) and dotted(node.comparators[0]) == "self.queues":
+                return exists
+            return None
+        return {"*q": fn}
+
+    r = flow.reach_under(g, env(True), flow.NORMAL_KINDS)
+    ctx.check(not any(c.id in r for c in creates), rule, f, "declaring an existing queue keeps its messages", "creation only when the queue does not exist",
+              "in-memory queue_declare replaces an existing queue by an empty one: every declare (the worker declares its queues on each start) drops all waiting, delayed, dead and in-flight messages",
+              instance="queue_declare idempotent")
+    r = flow.reach_under(g, env(False), flow.NORMAL_KINDS)
+    ctx.check(all(c.id in r for c in creates), rule, f, "declaring a new queue creates it", "created", "in-memory queue_declare does not create a missing queue", instance="queue_declare creates")
+    init = ctx.func(f"{C.INMEM_CONS}.__init__")
+    st = [n for n in ast.walk(init.node) if isinstance(n, ast.Assign) and any(dotted(t) == "self._queue" for t in n.targets)]
+    ok = len(st) == 1 and C.utext(init, st[0].value) == "broker.queues[queue_name]"
+    ctx.check(ok, rule, init, "consumer reads the broker's queue of its own name", "broker.queues[queue_name]", f"in-memory consumer binds its queue to {unparse(st[0].value) if st else '?'}", instance="consumer queue binding")
+    for op in ("enqueue", "ack", "nack", "reject", "requeue"):
+        of = ctx.func(f"{C.INMEM_BROKER}.{op}")
+        subs = {C.utext(o, s_.slice) for o, s_ in C.flat_walk(ctx, of) if isinstance(s_, ast.Subscript) and dotted(s_.value) == "self.queues"}
+        ctx.check(subs == {"key.queue"}, rule, of, f"in-memory {op} works on the queue named by the key", "self.queues[key.queue]", f"in-memory {op} indexes the queues with {sorted(subs)}",
+                  instance=f"in-memory {op}: queue selection")
